@@ -76,6 +76,9 @@ func (g *gen) funcInChanOut(name string, typ types.Type) (inTyp, outTyp types.Ty
 	if !ok {
 		return nil, nil, fmt.Errorf("%s is not a function: %s", name, typ)
 	}
+	if sig.Variadic() {
+		return nil, nil, fmt.Errorf("%s, the function %s is variadic, which is not supported", name, g.TypeString(sig))
+	}
 	params := sig.Params()
 	results := sig.Results()
 	if params.Len() != 1 {
